@@ -182,8 +182,19 @@ Definition fld_ptr_slice (raw : bytes) : res (option (list (option bytes))) :=
 Definition enc_bytes (b : option bytes) : bytes :=
   match b with Some x => encode (IBstr x) | None => encode (ISimple 22) end.
 
-(* Headers.MarshalCBOR = CoseMap.MarshalCBOR: a map in deterministic order; values the model cannot encode make it fail *)
-Definition enc_cosemap (m : cosemap) : option bytes := marshal_any (VMap m).
+(* Headers.MarshalCBOR = CoseMap.MarshalCBOR: labels are normalised as on decoding (a label that is neither text nor a
+   32-bit integer, or one held twice under different integer types, is an error), then a map in deterministic order;
+   values the model cannot encode also make it fail *)
+Fixpoint labels_dup (m : cosemap) : bool :=
+  match m with
+  | [] => false
+  | (l, _) :: r => existsb (fun e => label_eqb (fst e) l) r || labels_dup r
+  end.
+Definition enc_cosemap (m : cosemap) : option bytes :=
+  match check_labels m with
+  | Ok m' => if labels_dup m' then None else marshal_any (VMap m')
+  | _ => None
+  end.
 
 (* Headers.Bytes(): the empty (or nil) map is the zero-length string *)
 Definition headers_bytes (m : cosemap) : option bytes :=
